@@ -95,6 +95,17 @@ class _RecMixin:
     def _rec(self, truth: int, req: bytes, resp: Any) -> None:
         self.log.append((truth, bytes(req), None if resp is None else bytes(resp.pdu)))
 
+    async def _think(self) -> None:
+        """model["latency"] = {"base": seconds, "jitter": [seconds, ...]}: an honest but SLOW ECU (or a gateway in
+        front of it): every request -- probes, session changes, the session read, TesterPresent -- is answered
+        correctly, but only after base + jitter[n mod len] seconds (n = number of the request on this ECU).
+        Requests are served one after the other (handle_client), as on a real diagnostic channel."""
+        lat = getattr(self, "model", {}).get("latency")
+        if lat:
+            n = self._nreq = getattr(self, "_nreq", -1) + 1
+            jit = lat.get("jitter") or [0.0]
+            await asyncio.sleep(max(0.0, lat["base"] + jit[n % len(jit)]))
+
 
 def _is_dsc(pdu: bytes) -> bool:
     return len(pdu) == 2 and pdu[0] == 0x10 and (pdu[1] & 0x7F) != 0
@@ -163,6 +174,7 @@ class ModelServer(_RecMixin, UDSServer):
             # model["reset"] = {"level", "delay", "latency"}: every answer takes `latency` seconds; ECUReset <level>
             # is acknowledged at once and performed `delay` seconds later (< 0.5 s), the ECU answers in between
             await asyncio.sleep(rs["latency"])
+        await self._think()
         truth = self.state.session
         if rs and pdu == bytes([0x11, rs["level"]]):
             asyncio.get_running_loop().call_later(rs["delay"], self.state.reset)
@@ -181,6 +193,8 @@ class ModelServer(_RecMixin, UDSServer):
             code, raw = NEG, bytes([0x7F, 0x22, 0x31])
         if self.mutant == "fake-swaps-len-and-sns" and code == LEN:
             raw = bytes([0x7F, sid, NRC_SNS])
+        if pdu == b"\x3e\x80" and code == POS:
+            raw = None  # ISO 14229-1 suppressPosRspMsgIndicationBit: a keep-alive sent this way gets no answer
         if c[0] == "Ans" and c[4] and code in (POS, NEG):
             self.state.reset()  # the ECU falls back to its default session by itself
         if self.model.get("drop_after", {}).get(str(truth), {}).get(str(sid)) == len(pdu) - 1:
@@ -282,6 +296,7 @@ class IdentServer(_RecMixin, UDSServer):
 
     async def respond(self, request: service.UDSRequest) -> Any:
         pdu = request.pdu
+        await self._think()
         truth = self.state.session
         if _is_dsc(pdu) or (self.sess_read and pdu == b"\x22\xf1\x86"):
             resp = await super().respond(request)
